@@ -304,3 +304,24 @@ def op_load_outcome(c):
     allowed = ("import:traceback", "import:linecache", "import:tokenize", "import:token", "import:collections", "import:contextlib")
     bad = [e for e in _AUDIT["events"] if not e.startswith(allowed)]
     return {"cls": cls, "name": name, "ms": int(dt * 1000), "bad_events": bad[:5]}
+
+
+def op_marsh_nested(c):
+    """c = {depth, kind}: a container nested `depth` deep (the host's marshal handles 2000 levels): does xdis.marsh.dumps write it and does
+    xdis.marsh.loads read the host's version-0 stream of it?"""
+    import marshal
+    import xdis.marsh as M
+    v = ()
+    for _ in range(c["depth"]):
+        v = (v,) if c["kind"] == "tuple" else [v]
+    out = {}
+    try:
+        b = M.dumps(v)
+        out["dumps"] = "ok" if marshal.loads(b) == v else "differs"
+    except BaseException as e:
+        out["dumps"] = type(e).__name__
+    try:
+        out["loads"] = "ok" if M.loads(marshal.dumps(v, 0)) == v else "differs"
+    except BaseException as e:
+        out["loads"] = type(e).__name__
+    return out
